@@ -269,6 +269,57 @@ func checkC10(c *Ctx) {
 		}
 		w.SeenB(redact.EscapeBytes(b))
 	})
+	// long payloads cut in two at EVERY position (a write boundary may fall inside a marker, after a long clean chunk)
+	lens := []int{0, 1, 7, 14, 15, 16, 17, 31, 32, 33, 40, 61, 62, 63, 64, 65, 70}
+	c.Section("C10/long-splits", map[string]interface{}{"prefix_lengths": lens, "inserted": len(ins), "cuts": "every position", "modes": 2}, len(ins)*len(lens), func(i int, w *Worker) {
+		x, n := ins[i/len(lens)], lens[i%len(lens)]
+		b := append(bytes.Repeat([]byte("x"), n), x...)
+		b = append(b, " secret"...)
+		for mode := 0; mode <= 1; mode++ {
+			var whole buffer.Buffer
+			whole.SetMode(buffer.OutputMode(mode))
+			whole.Write(b)
+			want := string(whole.RedactableString())
+			for cut := 0; cut <= len(b); cut++ {
+				w.Eval()
+				var sp buffer.Buffer
+				sp.SetMode(buffer.OutputMode(mode))
+				sp.Write(b[:cut])
+				sp.WriteString(string(b[cut:]))
+				got := string(sp.RedactableString())
+				var sb redact.StringBuilder
+				if mode == 0 {
+					sb.UnsafeBytes(b[:cut])
+					sb.UnsafeString(string(b[cut:]))
+				} else {
+					sb.SafeBytes(b[:cut])
+					sb.SafeString(redact.SafeString(b[cut:]))
+				}
+				got2 := string(sb.RedactableString())
+				if got != want || got2 != want {
+					w.Fail("long-splits", map[string]interface{}{"B": b, "Mode": mode, "Cut": cut}, fmt.Sprintf("mode %d payload %q: one write gives %q; cut at %d: ManualBuffer %q, StringBuilder %q", mode, b, want, cut, got, got2))
+				}
+			}
+		}
+		w.SeenB(b)
+	})
+	replayers["C10/long-splits"] = func(c *Ctx, raw json.RawMessage) string {
+		var cs struct {
+			B         []byte
+			Mode, Cut int
+		}
+		json.Unmarshal(raw, &cs)
+		var whole, sp buffer.Buffer
+		whole.SetMode(buffer.OutputMode(cs.Mode))
+		whole.Write(cs.B)
+		sp.SetMode(buffer.OutputMode(cs.Mode))
+		sp.Write(cs.B[:cs.Cut])
+		sp.WriteString(string(cs.B[cs.Cut:]))
+		if a, b := string(whole.RedactableString()), string(sp.RedactableString()); a != b {
+			return fmt.Sprintf("one write %q, cut at %d %q", a, cs.Cut, b)
+		}
+		return ""
+	}
 	c.Assume("alphabet argument: the scanner looks ahead exactly 3 bytes and its tail guard at most 4; every byte of both markers is a symbol, so every alignment of a (partial) marker against the end of input, the start offset and a neighbouring marker occurs")
 }
 
